@@ -523,8 +523,13 @@ def check_C17(tier, seed, replay=None):
 
 
 def check_C14(tier, seed, replay=None):
+    corr = _corr_generic("conccases", "C14", "trace conformance: the real exchange.concurrencyOperator (buffer 2) under a scripted child "
+                         "(0-4 batches, looks at the context never / always / at random) and a consumer mirroring Exec's loop, cancel() "
+                         "when the log reaches a scripted length, random yields; the log of observable events must be accepted by "
+                         "ConcTrace.accepts (the labelled transition system refining Conc.steps) and no goroutine may outlive the run",
+                         150, 1500, shards_quick=8, shards_thorough=16)
     return ref_family_check("C14", tier, seed, [("cancel", "", 500), ("cancelstress", "", 16)],
-                            [("cancel", "", 10000), ("cancelstress", "", 400)])
+                            [("cancel", "", 10000), ("cancelstress", "", 400)], corr=corr)
 
 
 def check_C12(tier, seed, replay=None):
